@@ -132,6 +132,12 @@ def check_parse(rep, prog):
     rep.check(oki, "C04.R2.parser-failure-contained", "importing the parser module is covered by 'except Exception' too", where,
               "importlib.import_module(...)", "a parser module that fails to import with anything but ImportError (SyntaxError, missing data "
               "file, ...) aborts the decode of the whole PEL instead of yielding an error note plus hex dump")
+    # ... and the containing handlers cannot fail themselves (e.args[0] of an exception raised without arguments, a re-raise)
+    hf = pelx.handler_failures(I.events, {h.data[0] for h in broad})
+    rep.check(not hf, "C04.R2.parser-failure-contained", "the handlers that contain a parser failure cannot fail themselves", where,
+              hf[0][0].node if hf else "except Exception", "the handler that turns a parser failure into an error note can raise itself "
+              "(%s): the whole PEL is lost instead of showing the error and the hex dump" % (repr(hf[0][0].data[0])[:100] if hf else ""),
+              node=hf[0][0].node if hf else None)
     # None / JSON-null results are replaced by error + hexdump
     nulls = [x for x in walk(r) if isinstance(x, Op) and x.op in ("eq", "is") and NONE in x.args]
     rep.check(bool(nulls), "C04.R2.parser-failure-contained", "a parser result of None is detected", where, "if value == None",
